@@ -10,35 +10,35 @@ from . import unit as U
 ROOT = os.path.dirname(os.path.dirname(os.path.abspath(__file__)))
 
 
-def run(tier, build_dir):
+def run(tier, build_dir, name="xsim"):
     out = {"ok": False, "scenarios": 0, "bound": "", "failures": [], "samples": [], "undecided": None, "wall_s": 0.0, "cmd": "",
            "items": {}}
     t0 = time.time()
     try:
-        tmpl = U.Template(os.path.join(ROOT, "contracts", "xsim.rs"))
+        tmpl = U.Template(os.path.join(ROOT, "contracts", name + ".rs"))
         asm = U.assemble(tmpl)
     except U.UnitError as e:
-        out["undecided"] = "xsim: " + str(e)
+        out["undecided"] = name + ": " + str(e)
         return out
     os.makedirs(build_dir, exist_ok=True)
-    src = os.path.join(build_dir, "xsim_unit.rs")
-    binp = os.path.join(build_dir, "xsim_bin")
+    src = os.path.join(build_dir, name + "_unit.rs")
+    binp = os.path.join(build_dir, name + "_bin")
     open(src, "w").write(asm.text)
     out["items"] = {k: {"src": v["src"], "repo_lines": v["repo_lines"]} for k, v in asm.items.items()}
     p = subprocess.run(["rustc", "--edition", "2021", "-O", "-A", "warnings", src, "-o", binp], capture_output=True, text=True, timeout=600)
     if p.returncode != 0:
         errs = [ln for ln in p.stderr.split("\n") if ln.startswith("error")]
-        out["undecided"] = "xsim does not compile against the executable stubs: " + "; ".join(errs[:3])
+        out["undecided"] = name + " does not compile against the executable stubs: " + "; ".join(errs[:3])
         out["wall_s"] = time.time() - t0
         return out
     args = [binp] + (["--thorough"] if tier == "thorough" else [])
-    out["cmd"] = "rustc --edition 2021 -O <real text cut from /repo + executable stubs> && ./xsim_bin" + (" --thorough" if tier == "thorough" else "")
+    out["cmd"] = "rustc --edition 2021 -O <real text cut from /repo + executable stubs> && ./" + name + "_bin" + (" --thorough" if tier == "thorough" else "")
     try:
         r = subprocess.run(args, capture_output=True, text=True, timeout=3000)
         d = json.loads(r.stdout.strip().split("\n")[-1])
         out.update(ok=True, scenarios=d["scenarios"], bound=d["bound"], failures=d["failures"], samples=d.get("samples", []))
     except (subprocess.TimeoutExpired, ValueError, IndexError) as e:
-        out["undecided"] = "xsim run failed: %r" % (e,)
+        out["undecided"] = name + " run failed: %r" % (e,)
     out["wall_s"] = time.time() - t0
     return out
 
